@@ -35,19 +35,31 @@ Section CK.
 Variables (bottom versioning : bool) (retention now : N) (snaps : list N).
 
 (* one pass newest -> oldest: the keep/drop decision of every version.
-   barrier = a newer REPLACE has been passed *)
-Fixpoint ck_decide (latest_del_bottom : bool) (i : nat) (newer : option vis) (barrier : bool) (l : list ver)
+   barrier = a newer REPLACE has been passed (replace_seen);
+   nbar = a newer hard delete or REPLACE has been passed in the same visibility boundary
+   (newer_barrier; reset when the boundary changes between two consecutive versions) *)
+Fixpoint ck_decide (latest_del_bottom : bool) (i : nat) (newer : option vis) (barrier nbar : bool) (l : list ver)
   : list (ver * bool) :=
   match l with
   | [] => []
   | v :: r =>
     let is_latest := Nat.eqb i 0 in
     let cur := visibility snaps (vseq v) in
+    (* a newer barrier makes this one redundant only for readers that see both *)
+    let nbar :=
+      match newer with
+      | Some nv => if negb (same_boundary nv cur) then false else nbar
+      | None => nbar
+      end in
     let superseded :=
       match newer with
       | Some nv =>
         let outside_retention := (0 <? retention) && (retention <? (now - vts v)) in
-        (negb versioning || outside_retention) && negb is_latest && same_boundary nv cur
+        (* a hard delete above the bottom level is not dropped as superseded either, unless a
+           newer hard delete / replace already erases what it erases *)
+        let barrier_above_bottom := versioning && negb bottom && is_hard (vkind v) && negb nbar in
+        (negb versioning || outside_retention) && negb barrier_above_bottom
+          && negb is_latest && same_boundary nv cur
       | None => false
       end in
     let required := negb superseded && match cur with Bounded _ => true | _ => false end in
@@ -61,7 +73,7 @@ Fixpoint ck_decide (latest_del_bottom : bool) (i : nat) (newer : option vis) (ba
       else if is_latest && hard && bottom then false      (* tombstone kept: an older snapshot still reads below it *)
       else if is_latest && hard && negb bottom then false
       else if is_latest && rep then false
-      else if hard then negb (versioning && negb bottom)   (* an older hard delete stays above the bottom level under versioning: it erases versions that may sit deeper *)
+      else if hard then negb (versioning && negb bottom && negb nbar)   (* an older hard delete stays above the bottom level under versioning (it erases versions that may sit deeper), unless a newer barrier does that job *)
       else if barrier then true
       else if negb versioning then true
       else if 0 <? retention then (retention <? (now - vts v)) else false in
@@ -71,7 +83,7 @@ Fixpoint ck_decide (latest_del_bottom : bool) (i : nat) (newer : option vis) (ba
       else if stale then false
       else if versioning || required then true
       else is_latest in
-    (v, output) :: ck_decide latest_del_bottom (S i) (Some cur) (barrier || rep) r
+    (v, output) :: ck_decide latest_del_bottom (S i) (Some cur) (barrier || rep) (nbar || hard || rep) r
   end.
 
 (* with versioning a dropped barrier (hard delete / replace) is restored when an older version is kept *)
@@ -90,7 +102,7 @@ Definition compact_key (vs : list ver) : list ver :=
                 match snaps with [] => true | oldest :: _ => vseq v <=? oldest end
     | [] => false
     end in
-  let ds := ck_decide latest_del_bottom 0 None false vs in
+  let ds := ck_decide latest_del_bottom 0 None false false vs in
   map fst (filter snd (if versioning then ck_fixup ds else ds)).
 End CK.
 
